@@ -382,6 +382,10 @@ fn scenario_inner() -> Vec<Op> {
         // permission bits that differ between owner, group and other (a query looking at one class only shows)
         Op::MkfileM("/d/gw".into(), 0o464),
         Op::MkfileM("/d/gx".into(), 0o610),
+        // siblings named like the directory plus a byte that sorts below the separator: depth-first name order
+        // and byte order of the whole path differ (a wrapper that re-sorts would show)
+        Op::WriteAll("/d-1".into(), b"s".to_vec()),
+        Op::WriteAll("/d.txt".into(), b"t".to_vec()),
         Op::Chmod("/d/f".into(), 0o444),
         Op::Symlink("/lf".into(), "/d/f".into()),
         Op::Symlink("/ld".into(), "/d".into()),
